@@ -163,6 +163,30 @@ pub fn run(ctx: &Ctx) -> Report {
     }
     let st = explore(&ctx.pool, jobs, j);
     rep.part("more pending operations than a queue holds, workers dying or failing", st, serde_json::json!({"files": 300}));
+    // short counts: a retry loop must make progress
+    {
+        let w = Worker::new(47, &ctx.pool.bins);
+        let mut errs = vec![];
+        let mut jobs = vec![];
+        for d in drivers() {
+            for (n, bflag) in [(5u64, vec!["--block-size", "3"]), (10, vec!["--block-size", "4"]), (10, vec!["--no-progress"])] {
+                let s = c05::file_scen(&format!("short-{}-{}-{}", n, d, bflag.join("")), crate::scen::Content::Gen { len: n, seed: n }, d, &bflag, crate::scen::Prog::Xcp);
+                jobs.extend(c05::clamp_jobs(&w, &s, &[], &|req| (1..req).collect(), false, &mut errs));
+                for c in [1u64, 2] {
+                    let mut sp = RunSpec::base(Policy::P0);
+                    sp.step_limit = c05::STEP_LIMIT;
+                    sp.faults.push(crate::sup::Fault { call: "DATA".into(), thread: None, nth: None, path_contains: None, action: crate::sup::Action::Clamp(c) });
+                    jobs.push((Arc::new(s.clone()), sp, 0));
+                }
+                // the user-space fallback has its own loops
+                let absent = vec![crate::sup::Fault { call: "copy_file_range".into(), thread: None, nth: None, path_contains: None, action: crate::sup::Action::Errno(libc::ENOSYS) }];
+                jobs.extend(c05::clamp_jobs(&w, &s, &absent, &|req| (1..req).collect(), true, &mut errs));
+            }
+        }
+        let st = explore(&ctx.pool, jobs, j);
+        rep.part("short counts at every data-moving call (retry loops must terminate)", st, serde_json::json!({"sizes": [5, 10]}));
+        rep.machinery_errors.extend(errs);
+    }
     // fault runs: every single fault of C04's enumeration, re-judged for termination
     let (st, nsites) = c04::fault_sweep(ctx, j, if ctx.quick() { 0 } else { 1 });
     rep.part("single injected failures (C04's sites)", st, serde_json::json!({"sites": nsites, "deviations_on_top": if ctx.quick() { 0 } else { 1 }}));
